@@ -29,7 +29,7 @@ SOURCES = ["TLVerif.Codec.TL1", "TLVerif.Codec.Val", "TLVerif.Codec.Desc"]
 
 def schema_plan(c):
     """[(sid, seed, size, sanity)] — seeds are drawn from c.rng so that VERIF_SEED moves the whole plan"""
-    n = 30 if c.thorough else 5
+    n = 30 if c.thorough else 4
     n = int(os.environ.get("C11_SCHEMAS", n))
     plan = []
     for k in range(n):
